@@ -44,12 +44,82 @@ pub open spec fn server_hello_out(m: TlsServerHelloContents) -> GenOut {
 pub open spec fn server_hello_d18_out(m: TlsServerHelloV13Draft18Contents) -> GenOut {
     hs_out(2, seq_out(bytes(u16_bytes(m.version.0)), seq_out(bytes(m.random@), seq_out(bytes(u16_bytes(m.cipher.0)), ext_out(m.ext)))))
 }
+// the list-based serializers (ClientHello, SNI / supported_groups extensions) pass a generator FUNCTION returning `impl SerializeFn` to
+// cookie-factory's `all` / `many_ref`; Verus 0.2026.09.13 dies with an internal error on a fn item with an opaque return type used as a
+// function value (measured), so their outcome is abstract here (uninterpreted) and they stay Kani obligations (ser_* leaves) + stand-in
+pub uninterp spec fn client_hello_out(m: TlsClientHelloContents) -> GenOut;
+pub uninterp spec fn sni_ext_out(v: Seq<(SNIType, &[u8])>) -> GenOut;
+pub uninterp spec fn groups_ext_out(v: Seq<NamedGroup>) -> GenOut;
+// an extension = u16 type, u16 length of the data, data
+pub open spec fn tagged_out(tag: u16, o: GenOut) -> GenOut { seq_out(bytes(u16_bytes(tag)), len16_out(o)) }
+pub open spec fn handshake_out(m: TlsMessageHandshake) -> GenOut {
+    match m {
+        TlsMessageHandshake::HelloRequest => seq_out(bytes(seq![0u8]), bytes(seq![0u8, 0u8, 0u8])),
+        TlsMessageHandshake::ClientHello(c) => client_hello_out(c),
+        TlsMessageHandshake::ServerHello(c) => server_hello_out(c),
+        TlsMessageHandshake::ServerHelloV13Draft18(c) => server_hello_d18_out(c),
+        TlsMessageHandshake::ClientKeyExchange(c) => cke_out(c),
+        TlsMessageHandshake::Finished(b) => hs_out(20, bytes(b@)),
+        _ => GenOut::Fail(GenError::NotYetImplemented),      // every other variant is refused, nothing is emitted
+    }
+}
+pub open spec fn message_out(m: TlsMessage) -> GenOut {
+    match m {
+        TlsMessage::Handshake(h) => handshake_out(h),
+        TlsMessage::ChangeCipherSpec => bytes(seq![1u8]),
+        _ => GenOut::Fail(GenError::NotYetImplemented),
+    }
+}
+pub open spec fn extension_out(m: TlsExtension) -> GenOut {
+    match m {
+        TlsExtension::SNI(v) => sni_ext_out(v@),
+        TlsExtension::MaxFragmentLength(l) => tagged_out(1, bytes(seq![l])),
+        TlsExtension::EllipticCurves(v) => groups_ext_out(v@),
+        _ => GenOut::Fail(GenError::NotYetImplemented),
+    }
+}
 pub open spec fn cke_out(m: TlsClientKeyExchangeContents) -> GenOut {
     match m {
         TlsClientKeyExchangeContents::Unknown(b) => hs_out(16, bytes(b@)),
         TlsClientKeyExchangeContents::Dh(b) => hs_out(16, len16_out(bytes(b@))),
         TlsClientKeyExchangeContents::Ecdh(p) => hs_out(16, seq_out(bytes(seq![p.point@.len() as u8]), bytes(p.point@))),
     }
+}
+'''
+
+LEMMAS = r'''
+// "every u24 / u16 length field equals the byte length of what it prefixes" in arithmetic terms, for every body that fits the field
+proof fn lemma_len24_consistent(b: Seq<u8>)
+    requires b.len() < 0x1000000,
+    ensures len24_out(bytes(b)) == bytes(seq![(b.len() / 65536) as u8, ((b.len() / 256) % 256) as u8, (b.len() % 256) as u8] + b),
+{
+    let n = b.len() as u64 as u32;
+    assert(((n >> 16) & 0xff) == n / 65536 && ((n >> 8) & 0xff) == (n / 256) % 256 && (n & 0xff) == n % 256) by (bit_vector) requires n < 0x1000000;
+    assert(u24_bytes(n) =~= seq![(b.len() / 65536) as u8, ((b.len() / 256) % 256) as u8, (b.len() % 256) as u8]);
+}
+proof fn lemma_len16_consistent(b: Seq<u8>)
+    requires b.len() < 0x10000,
+    ensures len16_out(bytes(b)) == bytes(seq![(b.len() / 256) as u8, (b.len() % 256) as u8] + b),
+{
+    let n = b.len() as u64 as u16;
+    assert((n >> 8) == n / 256 && (n & 0xff) == n % 256) by (bit_vector);
+    assert(u16_bytes(n) =~= seq![(b.len() / 256) as u8, (b.len() % 256) as u8]);
+}
+// a handshake message whose body fits 24 bits: type byte, the body length big-endian on three bytes, the body - and nothing else
+proof fn lemma_handshake_framing(t: u8, b: Seq<u8>)
+    requires b.len() < 0x1000000,
+    ensures hs_out(t, bytes(b)) == bytes(seq![t] + (seq![(b.len() / 65536) as u8, ((b.len() / 256) % 256) as u8, (b.len() % 256) as u8] + b)),
+{
+    lemma_len24_consistent(b);
+}
+// Finished / opaque ClientKeyExchange on a Vec writer: emits(f, Bytes(x)) means a call can only append exactly x (a Vec never fails)
+proof fn lemma_vec_writer_appends<F: Fn(WriteContext<Vec<u8>>) -> GenResult<Vec<u8>>>(f: F, x: Seq<u8>, ctx: WriteContext<Vec<u8>>, r: GenResult<Vec<u8>>)
+    requires emits(f, bytes(x)), f.ensures((ctx,), r),
+    ensures r is Ok, r->Ok_0.write@ =~= ctx.write@ + x,
+{
+    axiom_vec_writer(ctx.write);
+    if r is Ok { axiom_vec_writer(r->Ok_0.write); }
+    assert(gen_post(ctx, r, bytes(x)));
 }
 '''
 
@@ -75,7 +145,7 @@ UNIT = {
     "name": "serialize",
     "property": ["C09"],
     "prelude": ["shim_cf.rs"],
-    "items": _types + [adt(F_HS, "struct", "TlsHandshakeType"), adt(F_HS, "newtype_enum", "TlsHandshakeType")] + [
+    "items": _types + _ext_types + [adt(F_HS, "struct", "TlsHandshakeType"), adt(F_HS, "newtype_enum", "TlsHandshakeType")] + [
         {"file": "-", "kind": "inline", "name": "serialize-contracts", "text": SPEC},
         # R8: From<TlsHandshakeType> for u8 lifted to a free fn (a foreign-trait impl cannot carry an ensures)
         {"file": F_HS, "kind": "method_as_fn", "name": "from", "as": "u8_from_hstype", "header": r"^impl From<TlsHandshakeType> for u8\s*\{",
@@ -104,6 +174,32 @@ UNIT = {
          "contract": "    ensures emits(r, cke_out(*m)),"},
         {"file": F_SER, "kind": "fn", "name": "gen_tls_changecipherspec", "rewrites": R,
          "contract": "    ensures emits(r, bytes(seq![1u8])),"},
+        {"file": F_EXT, "kind": "method_as_fn", "name": "from", "as": "u16_from_exttype", "header": r"^impl From<TlsExtensionType> for u16\s*\{",
+         "contract": "    ensures r == ext.0,"},
+        {"file": F_SER, "kind": "fn", "name": "tagged_extension", "rewrites": R,
+         "subst": [clo_expr("forall|o: GenOut| #![trigger emits(f, o)] emits(f, o) ==> gen_post(out, r2, tagged_out(tag, o))"),
+                   (r"\{ tuple2", "{ broadcast use axiom_ref_serializer; tuple2")],
+         "contract": "    requires callable(f),\n    ensures callable(r), forall|o: GenOut| #![trigger emits(f, o)] emits(f, o) ==> emits(r, tagged_out(tag, o)),"},
+        {"file": F_SER, "kind": "fn", "name": "gen_tls_ext_max_fragment_length", "rewrites": R,
+         "subst": [(r"u16::from\(TlsExtensionType::MaxFragmentLength\)", "u16_from_exttype(TlsExtensionType::MaxFragmentLength)")],
+         "contract": "    ensures emits(r, tagged_out(1, bytes(seq![l]))),"},
+        {"file": F_SER, "kind": "fn", "name": "gen_tls_named_group", "rewrites": R, "contract": "    ensures emits(r, bytes(u16_bytes(g.0))),"},
+        # one SNI entry: name type u8, u16 name length, the name
+        {"file": F_SER, "kind": "fn", "name": "gen_tls_ext_sni_hostname", "rewrites": R,
+         "contract": "    ensures emits(r, seq_out(bytes(seq![(i.0).0]), seq_out(bytes(u16_bytes(i.1@.len() as u16)), bytes(i.1@)))),"},
+        {"file": F_SER, "kind": "fn", "name": "gen_tls_clienthello", "rewrites": R, "external_body": True, "external_body_text": "{ move |ctx: WriteContext<W>| Err(GenError::InvalidOffset) }", "contract": "    ensures emits(r, client_hello_out(*m)),"},
+        {"file": F_SER, "kind": "fn", "name": "gen_tls_ext_sni", "rewrites": R, "external_body": True, "external_body_text": "{ move |ctx: WriteContext<W>| Err(GenError::InvalidOffset) }", "contract": "    ensures emits(r, sni_ext_out(m@)),"},
+        {"file": F_SER, "kind": "fn", "name": "gen_tls_ext_elliptic_curves", "rewrites": R, "external_body": True, "external_body_text": "{ move |ctx: WriteContext<W>| Err(GenError::InvalidOffset) }", "contract": "    ensures emits(r, groups_ext_out(v@)),"},
+        # dispatchers: each supported variant goes to its own serializer, every other variant is NotYetImplemented
+        {"file": F_SER, "kind": "fn", "name": "gen_tls_messagehandshake", "rewrites": R,
+         "subst": [clo_expr("gen_post(out, r2, handshake_out(*m))"), (r"\(ref (\w+)\)", r"(\1)")],
+         "contract": "    ensures emits(r, handshake_out(*m)),"},
+        {"file": F_SER, "kind": "fn", "name": "gen_tls_message", "rewrites": R,
+         "subst": [clo_expr("gen_post(out, r2, message_out(*m))"), (r"\(ref (\w+)\)", r"(\1)")],
+         "contract": "    ensures emits(r, message_out(*m)),"},
+        {"file": F_SER, "kind": "fn", "name": "gen_tls_extension", "rewrites": R,
+         "subst": [clo_expr("gen_post(out, r2, extension_out(*m))"), (r"\(ref (\w+)\)", r"(\1)")],
+         "contract": "    ensures emits(r, extension_out(*m)),"},
     ],
-    "epilogue": "",
+    "epilogue": LEMMAS,
 }
